@@ -1056,6 +1056,10 @@ func (d *indexData) newMatchTree(q query.Q, opt matchTreeOpt) (matchTree, error)
 		}, err
 
 	case *query.Type:
+		if s.Type == query.TypeFileMatch {
+			// File matches are the default result type.
+			return d.newMatchTree(s.Child, opt)
+		}
 		if s.Type != query.TypeFileName {
 			break
 		}
